@@ -103,6 +103,16 @@ def main(argv):
                     if n >= 2 and empty_route_ok and rep % 2 == 0:
                         # pairs whose explicit server key is empty: they all live on one server, whatever their inner keys are
                         keys += [("", "ea%d" % rep), ("", "eb%d" % rep), ("", "ec"), ("", "key0x")]
+                    if n >= 2 and len(names) >= 2 and rep % 2 == 1:
+                        # one text as a str key and as a bytes key in ONE call: two different routing keys (the rule hashes what the caller passed),
+                        # chosen so that they live on different servers - the same memcached key on each of them
+                        def srv_of(r_):
+                            return max(names, key=lambda nn: (murmur3_32(f"{nn}-{r_}", 0), nn))
+                        for tw in range(40):
+                            t_ = "twin%d_%d" % (rep, tw)
+                            if srv_of(t_) != srv_of(t_.encode()):
+                                keys += [t_, t_.encode()]
+                                break
                     if n >= 2 and rng.random() < .7:
                         # the same inner key under several routings, and also as a plain key
                         base_k = "shared%d" % rep
@@ -193,7 +203,8 @@ def main(argv):
                     distinct_inner = len({inner(k) if isinstance(inner(k), bytes) else inner(k).encode() for k in keys}) == len(keys)
                     reset()
                     try:
-                        gm = hc.get_many(keys) if keys else {}
+                        # the keys handed over as a list, or (every other case) as a one-shot iterator / generator: the same keys
+                        gm = hc.get_many([keys, iter(keys), (k_ for k_ in keys)][rep % 3] if rep % 3 else keys) if keys else {}
                     except Exception as e:
                         ctx.violation("get_many raised on healthy servers with legal keys", dict(case0, keys=repr(keys)[:100], error=repr(e)[:100]), tags=["op:get_many"])
                         continue
@@ -224,7 +235,7 @@ def main(argv):
                     # gets_many: the same routing, `gets` on the wire for every key set size (1 included), and it equals the per-key gets
                     reset()
                     try:
-                        gsm = hc.gets_many(keys) if keys else {}
+                        gsm = hc.gets_many(map(lambda k_: k_, keys) if rep % 2 else keys) if keys else {}
                     except Exception as e:
                         ctx.violation("gets_many raised on healthy servers with legal keys", dict(case0, keys=repr(keys)[:100], error=repr(e)[:100]), tags=["op:gets_many"])
                         continue
